@@ -44,7 +44,7 @@ def cmd_check(pid, tier, quiet=False):
     cap = getattr(mod, "CAP_S", {}).get(tier)
     try:
         shards = mod.plan(tier, seed)
-        res = par.run(mod.__name__, shards, tier, seed, cap_s=cap,
+        res = par.run(mod.__name__, shards, tier, seed, cap_s=cap, workers=getattr(mod, "WORKERS", None),
                       fresh_worker_per_shard=getattr(mod, "FRESH_WORKERS", False))
         if hasattr(mod, "finish"):
             mod.finish(tier, seed, res)
